@@ -17,7 +17,7 @@ def _adt_for(sort):
 
 class Lemma:
     def __init__(self, name, vars, stmt, ind=None, triggers=None, uses=(), companions=(), ih_extra=None, doc='',
-                 nonind=False, split_depth=0, hints=(), rewrite=False):
+                 nonind=False, split_depth=0, hints=(), rewrite=False, trusted=False):
         self.name = name
         self.vars = vars
         self.stmt = stmt
@@ -31,6 +31,7 @@ class Lemma:
         self.split_depth = split_depth
         self.rewrite = rewrite       # an unconditional equation lhs == rhs used left-to-right by the normaliser
         self.hints = list(hints)     # explicit instances: (lemma name, [terms])
+        self.trusted = trusted       # an axiom of the trusted base (textbook meta-theory): never proved here, always reported
         self.proved = None
 
     def inst(self, *terms):
@@ -147,12 +148,21 @@ def prove_lemma(lm, library, seed=0):
     """Induction on lm.ind; returns list of (arm name, Verdict)."""
     group = [lm] + lm.companions
     results = []
+    if lm.trusted:
+        lm.proved = True
+        return results
     if lm.nonind:
         goal = lm.stmt
         hy = [library[n].inst(*ts) for n, ts in lm.hints]
-        v = solve.prove(hy, goal, seed=seed, lemmas=[library[u] for u in lm.uses], split_depth=1)
+        v = solve.prove(hy, goal, seed=seed, lemmas=[library[u] for u in lm.uses], split_depth=max(1, lm.split_depth))
         results.append((f'lemma:{lm.name}/direct', v))
         lm.proved = v.status == 'proved'
+        # vacuity guard: the antecedent of an implication must be satisfiable together with the hints
+        if z3.is_implies(goal):
+            ok = solve.feasible(hy + [goal.arg(0)], timeout_ms=5000)
+            if not ok:
+                results.append((f'lemma:{lm.name}/vacuity', solve.Verdict('unknown', 'z3', 0.0, detail='antecedent unsatisfiable: lemma holds vacuously')))
+                lm.proved = False
         return results
     ok = True
     for g in group:
